@@ -127,7 +127,11 @@ def write_evidence(prop, world_mod, level, tier, seed, total, n_viol, known, bud
         "violations": n_viol,
     }
     validate_evidence(ev)
-    path = os.path.join(VERIF, "evidence", f"{prop}.json")
+    # sensitivity tooling (tools/mutate.py, tools/seeded.py) points this elsewhere so that runs against a deliberately
+    # broken tree never overwrite the evidence of the unchanged tree
+    edir = os.environ.get("VERIF_EVIDENCE_DIR") or os.path.join(VERIF, "evidence")
+    os.makedirs(edir, exist_ok=True)
+    path = os.path.join(edir, f"{prop}.json")
     os.makedirs(os.path.dirname(path), exist_ok=True)
     tmp = path + ".tmp"
     with open(tmp, "w") as fh:
